@@ -14,6 +14,9 @@
 import Ptx.Proofs.LangParseArg
 import Ptx.Proofs.LangWriteInj
 import Ptx.Proofs.LangParseWF
+import Ptx.Proofs.LangStdWrite
+import Ptx.Proofs.LangStdInj
+import Ptx.Proofs.LangStdDecode
 import Ptx.Gen.ObSymbols
 namespace Ptx.Props.C12
 open Ptx Ptx.Sym Ptx.Parse Ptx.Write
@@ -150,38 +153,256 @@ theorem C12_render_injective_polish_ascii (limit : Nat) (s1 s2 : Sent)
 
 example : writePolish polishAscii (.atom 0 1) ≠ writePolish polishAscii (.atom 0 10) := by decide +kernel
 
-/-! ### stretch goals — stated in full, NOT proved (see tools/notes_C12.md)
+/-! ### standard notation -/
 
-  Standard notation.  `Renders o s str`: `str` is a fully parenthesised infix rendering of `s`
-  over the standard parse table — binary operations as `( lhs op rhs )` with the outer pair
-  optional, identity written infix `a = b` or prefix `=ab`, user predicates prefix (or infix when
-  binary+), arbitrary extra whitespace between any two symbols.
-
-    ▸ theorem C12_standard_denotes (limit fuel) (s) (hwf : WF maxi s) (har : ConsistentPreds (userPreds s))
-        (hsub : subsOK limit s) (hfuel : depth s ≤ fuel) (hne : ¬ s.hasExistence)
-        (str) (hr : Renders s str) :
-        parseStandard (standardCfg limit) fuel ∅ str = .ok s (storeAfter ∅ s)
-
-    ▸ theorem C12_tokens_injective_standard (o : StdOpts) :
-        Constructible m s1 → Constructible m s2 → standardToks o s1 = standardToks o s2 → s1 = s2
-
-    ▸ theorem C12_render_injective (n : Notation) (o) (tbl) (h : tbl.Decodable = true) :
-        Constructible m s1 → Constructible m s2 → write n o tbl s1 = write n o tbl s2 → s1 = s2
-
-  What exists instead: the standard parser and writer MODELS (corresponded against the code on
-  every run), `C13_*_standard` for the parser, the per-table obligations
-  `<table>_symbols_distinct` (symbol strings nonempty and pairwise distinct — a necessary
-  condition of decodability, all 12 tables), and the implementation-side pairwise-distinct
-  oracle over the exhaustive-small tier in harness/props/c12.py.  The examples below only show
-  that the standard model computes the intended readings; they are not the theorem.
--/
-
+/-- `Parser('standard')` as generated (`auto_preds`, `drop_parens` defaults), any digit limit -/
 def standardCfg (limit : Nat) : Cfg :=
   { table := Gen.Symbols.parse_standard_default, maxi := Gen.Symbols.maxi, intMaxDigits := limit }
 
-/-- `C12_standard_denotes_partial`: the writer's own output (text/ascii, default options) of one
-    fixed sentence with every construct except Existence, with and without outer parentheses and
-    with extra blanks, is read back — by kernel evaluation, for THIS sentence only. -/
+abbrev standardAscii : StringTable := Gen.Symbols.str_text_standard_ascii
+
+/-- the parser's option defaults are the generated ones -/
+theorem standardCfg_defaults (limit : Nat) :
+    (standardCfg limit).autoPreds = Gen.Symbols.standardAutoPreds ∧
+    (standardCfg limit).dropParens = Gen.Symbols.standardDropParens := ⟨rfl, rfl⟩
+
+theorem standard_parens : ParensOK Gen.Symbols.parse_standard_default = true := by decide +kernel
+
+theorem standard_compat (limit : Nat) :
+    CompatStdP (standardCfg limit).table standardAscii (standardCfg limit).maxi :=
+  CompatStdP.of_bool Gen.ObSymbols.str_text_standard_ascii_compat Gen.ObSymbols.str_text_standard_ascii_complete
+
+/-- Generalised form (what the induction proves), for ANY parse table: `_read` on an inner
+    rendering (`RendersIn`: every binary operation parenthesised, identity / n-ary predicates
+    prefix or infix, arbitrary whitespace after every symbol and digit, any digit word of the
+    subscript's value) followed by a continuation that does not start with a digit or a parameter
+    returns the sentence, leaves the continuation, restores the binders and declares the new
+    predicates.  The paren scan-ahead (`scanParen_rendersIn`) is part of it. -/
+theorem C12_standard_denotes_cont (cfg : Cfg) (s : Sent) (x : List Chr)
+    (hr : RendersIn cfg.table cfg.intMaxDigits s x)
+    (fuel : Nat) (b : List Var) (store : Store) (rest : List Chr)
+    (hfuel : depth s ≤ fuel) (hwf : wfIn cfg.maxi b s = true)
+    (hstore : StoreCompat cfg store s) (hrest : Stops cfg.table rest) :
+    readStd cfg fuel ⟨x ++ rest, b, store⟩ = .ok s ⟨chomp cfg.table rest, b, storeAfter store s⟩ :=
+  readStd_renders hr fuel b store rest hfuel hwf hstore hrest
+
+theorem ws32 : Ws Gen.Symbols.parse_standard_default [32] := by
+  intro c h; simp at h; subst h; decide +kernel
+/-- `A 07` is a rendering of the atomic `A₇` -/
+theorem rendersIn_A07 : RendersIn Gen.Symbols.parse_standard_default 4300 (.atom 0 7) [65, 32, 48, 55] :=
+  RendersIn.atom (c := 65) (w := [32]) (x := [48, 55]) (by decide +kernel) ws32
+    (SubR.mk (ds := [0, 7])
+      (DigitsR.cons (c := 48) (w := []) (r := [55]) (by decide +kernel) (Ws.nil _)
+        (DigitsR.cons (c := 55) (w := []) (r := []) (by decide +kernel) (Ws.nil _) DigitsR.nil))
+      (Or.inr (by decide)))
+
+example : readStd (standardCfg 4300) 5 ⟨[65, 32, 48, 55] ++ [41], [], ∅⟩ = .ok (.atom 0 7) ⟨[41], [], ∅⟩ :=
+  C12_standard_denotes_cont (standardCfg 4300) _ _ rendersIn_A07 5 [] ∅ [41] (by decide) (by decide) trivial
+    (stops_cons (k := .parenClose) [] (by decide +kernel) (by simp) rfl rfl)
+
+/-- C12, standard notation: the standard parser maps every rendering (`Renders`: outer
+    parentheses optional, arbitrary extra whitespace, infix or prefix predications, any digit
+    word for a subscript within the int() limit) of a sentence of its language to that sentence,
+    and declares exactly its predicates.  Existence is included here (the PARSER's symbol `!a`). -/
+theorem C12_standard_denotes (limit fuel : Nat) (s : Sent)
+    (hwf : WF Gen.Symbols.maxi s = true) (harities : ConsistentPreds (userPreds s))
+    (hfuel : depth s ≤ fuel)
+    (str : List Chr) (hr : Renders Gen.Symbols.parse_standard_default limit s str) :
+    parseStandard (standardCfg limit) fuel ∅ str = .ok s (storeAfter ∅ s) :=
+  parseStandard_renders (cfg := standardCfg limit) hr standard_parens rfl rfl fuel ∅ hfuel hwf rfl
+    (by show ConsistentPreds ([] ++ userPreds s); simpa using harities)
+
+/-- ` A 07 &  A 07` (outer parentheses dropped) -/
+example : parseStandard (standardCfg 4300) 5 ∅ ([32] ++ ([65, 32, 48, 55] ++ ([32] ++ (38 :: ([32] ++ [65, 32, 48, 55])))))
+    = .ok (.op2 .conj (.atom 0 7) (.atom 0 7)) ∅ :=
+  C12_standard_denotes 4300 5 _ (by decide) (by decide) (by decide) _
+    (Renders.dropped ws32 rendersIn_A07 ws32 (by decide +kernel) ws32 rendersIn_A07)
+
+/-- … on a parser whose store already holds predicates (jointly one arity per symbol) -/
+theorem C12_standard_denotes_store (limit fuel : Nat) (s : Sent) (store : Store)
+    (hwf : WF Gen.Symbols.maxi s = true) (hfro : store.frozen = false)
+    (harities : ConsistentPreds (store.preds ++ userPreds s)) (hfuel : depth s ≤ fuel)
+    (str : List Chr) (hr : Renders Gen.Symbols.parse_standard_default limit s str) :
+    parseStandard (standardCfg limit) fuel store str = .ok s (storeAfter store s) :=
+  parseStandard_renders (cfg := standardCfg limit) hr standard_parens rfl rfl fuel store hfuel hwf hfro harities
+
+example : parseStandard (standardCfg 4300) 5 ⟨[⟨0, 0, 2⟩], false⟩ ([] ++ [65, 32, 48, 55])
+    = .ok (.atom 0 7) ⟨[⟨0, 0, 2⟩], false⟩ :=
+  C12_standard_denotes_store 4300 5 _ _ (by decide) rfl (by decide) (by decide) _
+    (Renders.inner (Ws.nil _) rendersIn_A07)
+
+/-- … and a parser with `drop_parens=False` reads every rendering that has all its parentheses -/
+theorem C12_standard_denotes_parens (limit fuel : Nat) (s : Sent) (dp : Bool)
+    (hwf : WF Gen.Symbols.maxi s = true) (harities : ConsistentPreds (userPreds s)) (hfuel : depth s ≤ fuel)
+    (w x w' : List Chr) (hw : Ws Gen.Symbols.parse_standard_default w)
+    (hw' : Ws Gen.Symbols.parse_standard_default w')
+    (hr : RendersIn Gen.Symbols.parse_standard_default limit s x) :
+    parseStandard { standardCfg limit with dropParens := dp } fuel ∅ (w ++ (x ++ w')) = .ok s (storeAfter ∅ s) :=
+  parseStandard_rendersIn (cfg := { standardCfg limit with dropParens := dp }) hr hw hw' rfl fuel ∅ hfuel hwf rfl
+    (by show ConsistentPreds ([] ++ userPreds s); simpa using harities)
+
+example : parseStandard { standardCfg 4300 with dropParens := false } 5 ∅ ([32] ++ ([65, 32, 48, 55] ++ [32]))
+    = .ok (.atom 0 7) ∅ :=
+  C12_standard_denotes_parens 4300 5 _ false (by decide) (by decide) (by decide) _ _ _ ws32 ws32 rendersIn_A07
+
+/-- C12, standard notation, the writer's own output: for EVERY option set of `StandardLexWriter`
+    (`drop_parens`, `identity_infix`, `max_infix`) and every sentence of the language that the
+    writer writes in the parser's alphabet (`stdReadable`: no Existence predication — written
+    `E!a`, the parser reads `!a` —, and with `identity_infix` no negated identity — written
+    `a != b`), parsing the text/ascii rendering returns an equal sentence. -/
+theorem C12_standard_roundtrip (limit fuel : Nat) (o : StdOpts) (s : Sent)
+    (hwf : WF Gen.Symbols.maxi s = true) (harities : ConsistentPreds (userPreds s))
+    (hsub : subsOK limit s = true) (hfuel : depth s ≤ fuel) (hread : stdReadable o s = true) :
+    parseStandard (standardCfg limit) fuel ∅ (writeStandard standardAscii o s) = .ok s (storeAfter ∅ s) :=
+  C12_standard_denotes limit fuel s hwf harities hfuel _
+    (renders_write (standard_compat limit) o limit s hwf hsub hread)
+
+example : parseStandard (standardCfg 4300) 50 ∅
+    (writeStandard standardAscii {} (.quant .univ 0 0 (.op2 .cond (.op1 .neg (.pred ⟨0, 0, 1⟩ [.var 0 0]))
+      (.op2 .disj (.pred ⟨-1, 0, 2⟩ [.var 0 0, .const 1 3]) (.atom 2 0)))))
+    = .ok (.quant .univ 0 0 (.op2 .cond (.op1 .neg (.pred ⟨0, 0, 1⟩ [.var 0 0]))
+      (.op2 .disj (.pred ⟨-1, 0, 2⟩ [.var 0 0, .const 1 3]) (.atom 2 0)))) ⟨[⟨0, 0, 1⟩], false⟩ :=
+  C12_standard_roundtrip 4300 50 {} _ (by decide) (by decide) (by decide) (by decide) (by decide)
+
+/-- the exclusion is not vacuous-making: the two excluded constructs really are not read back -/
+example : parseStandard (standardCfg 4300) 50 ∅ (writeStandard standardAscii {} (.pred Pred.existence [.const 0 0]))
+    ≠ .ok (.pred Pred.existence [.const 0 0]) ∅ := by decide +kernel
+example : parseStandard (standardCfg 4300) 50 ∅
+    (writeStandard standardAscii {} (.op1 .neg (.pred Pred.identity [.const 0 0, .const 1 0])))
+    ≠ .ok (.op1 .neg (.pred Pred.identity [.const 0 0, .const 1 0])) ∅ := by decide +kernel
+
+/-- the writer's output IS a rendering (so `Renders` is not an ad-hoc set), for any option set -/
+theorem C12_standard_writer_renders (limit : Nat) (o : StdOpts) (s : Sent)
+    (hwf : WF Gen.Symbols.maxi s = true) (hsub : subsOK limit s = true) (hread : stdReadable o s = true) :
+    Renders Gen.Symbols.parse_standard_default limit s (writeStandard standardAscii o s) :=
+  renders_write (standard_compat limit) o limit s hwf hsub hread
+
+example : Renders Gen.Symbols.parse_standard_default 4300 (.op2 .conj (.atom 0 0) (.atom 1 0)) [65, 32, 38, 32, 66] :=
+  C12_standard_writer_renders 4300 {} _ (by decide) (by decide) (by decide)
+
+/-! ### token level, standard writer -/
+
+/-- Token level, standard writer, EVERY option set (`drop_parens`, `identity_infix`, `max_infix`),
+    all constructible sentences: the token stream of `StandardLexWriter.__call__` determines the
+    sentence. -/
+theorem C12_tokens_injective_standard (m : MaxIdx) (o : StdOpts) (s1 s2 : Sent)
+    (h1 : Constructible m s1) (h2 : Constructible m s2) (h : standardToks o s1 = standardToks o s2) : s1 = s2 :=
+  standardToks_inj m o s1 s2 h1 h2 h
+
+example : standardToks {} (.op2 .conj (.atom 0 0) (.atom 1 0)) ≠ standardToks {} (.op2 .conj (.atom 1 0) (.atom 0 0)) := by
+  decide
+example : Constructible Gen.Symbols.maxi (.op1 .neg (.pred Pred.identity [.const 0 0, .const 1 0])) := ⟨by decide, by decide⟩
+
+/-- the inner writer (`_write`: all binary operations parenthesised) is uniquely readable also as
+    a prefix of a longer stream that does not continue with a parameter or a subscript -/
+theorem C12_tokens_prefix_free_standard (m : MaxIdx) (o : StdOpts) (s1 s2 : Sent) (r1 r2 : List WTok)
+    (h1 : Constructible m s1) (h2 : Constructible m s2) (hr1 : TStops r1) (hr2 : TStops r2)
+    (h : stdToksIn o s1 ++ r1 = stdToksIn o s2 ++ r2) : s1 = s2 ∧ r1 = r2 :=
+  stdToksIn_inj m o s1.size s1 s2 r1 r2 (Nat.le_refl _) h h1 h2 hr1 hr2
+
+example : stdToksIn {} (.pred Pred.identity [.const 0 0, .const 1 0]) ++ [.parenClose]
+    = [.const 0, .ws, .identity, .ws, .const 1, .parenClose] := by decide
+
+/-! ### character level, every regenerated string table -/
+
+/-- every regenerated Polish table (text/ascii, text/text, text/unicode, html, latex, rst) is
+    `Decodable` with the Existence symbol: symbol strings nonempty, not starting with a digit and
+    a prefix code; subscripts bare digits, or opened by a marker prefix-incomparable with every
+    symbol and closed by a marker that starts with a non-digit -/
+theorem polish_tables_decodable :
+    ∀ t ∈ Gen.Symbols.stringTables, t.notn = "polish" → Decodable t Gen.Symbols.maxi true = true := by
+  decide +kernel
+
+/-- every regenerated standard table is `Decodable` WITHOUT the Existence symbol (`E!`, of which
+    the atomic `E` is a prefix, in all of them) and has parentheses and a negated-identity symbol -/
+theorem standard_tables_decodable :
+    ∀ t ∈ Gen.Symbols.stringTables, t.notn = "standard" →
+      Decodable t Gen.Symbols.maxi false = true ∧
+      (t.parenOpen.isSome && t.parenClose.isSome && t.negIdentity.isSome) = true := by
+  decide +kernel
+
+/-- the obstacle is real: with Existence no standard table is a prefix code -/
+example : ∀ t ∈ Gen.Symbols.stringTables, t.notn = "standard" → Decodable t Gen.Symbols.maxi true = false := by
+  decide +kernel
+
+/-- `render t` is injective on admissible token streams, for any `Decodable` table -/
+theorem C12_render_tokens_injective (t : StringTable) (m : MaxIdx) (ex : Bool) (hd : Decodable t m ex = true)
+    (ts1 ts2 : List WTok) (a1 : Adm (symToks t m ex) ts1) (a2 : Adm (symToks t m ex) ts2)
+    (h : render t ts1 = render t ts2) : ts1 = ts2 :=
+  render_inj (DecodableP.of_bool hd) ts1 ts2 a1 a2 h
+
+example : Adm (symToks Gen.Symbols.str_html_polish_html Gen.Symbols.maxi true) [.atom 0, .sub 12, .op1 .neg] :=
+  ⟨Or.inr (by decide), Or.inl ⟨12, rfl, by decide, by intro t ht; simp at ht; subst ht; rfl⟩, Or.inr (by decide), trivial⟩
+
+/-- C12, "distinct sentences never render to the same string", Polish notation, ANY table that
+    is `Decodable` (with Existence): all constructible sentences (open / vacuous / re-bound ones
+    included). -/
+theorem C12_render_injective_polish (t : StringTable) (m : MaxIdx) (hd : Decodable t m true = true)
+    (s1 s2 : Sent) (c1 : Constructible m s1) (c2 : Constructible m s2)
+    (h : writePolish t s1 = writePolish t s2) : s1 = s2 := by
+  have ht := hasToks_symToks t m true
+  have nn : NoSub ([] : List WTok) := tstops_nil.noSub
+  have a1 := adm_polish ht rfl s1 [] c1 trivial nn
+  have a2 := adm_polish ht rfl s2 [] c2 trivial nn
+  simp only [List.append_nil] at a1 a2
+  exact C12_tokens_injective_polish m s1 s2 c1 c2 (render_inj (DecodableP.of_bool hd) _ _ a1 a2 h)
+
+/-- … instantiated: every regenerated Polish string table -/
+theorem C12_render_injective_polish_tables (t : StringTable) (ht : t ∈ Gen.Symbols.stringTables)
+    (hn : t.notn = "polish") (s1 s2 : Sent)
+    (c1 : Constructible Gen.Symbols.maxi s1) (c2 : Constructible Gen.Symbols.maxi s2)
+    (h : writePolish t s1 = writePolish t s2) : s1 = s2 :=
+  C12_render_injective_polish t Gen.Symbols.maxi (polish_tables_decodable t ht hn) s1 s2 c1 c2 h
+
+example : writePolish Gen.Symbols.str_latex_polish_latex (.atom 0 1) ≠ writePolish Gen.Symbols.str_latex_polish_latex (.atom 0 10) := by
+  decide +kernel
+example : Gen.Symbols.str_latex_polish_latex ∈ Gen.Symbols.stringTables ∧ Gen.Symbols.str_latex_polish_latex.notn = "polish" :=
+  ⟨by simp [Gen.Symbols.stringTables], by decide +kernel⟩
+
+/-- `C12_render_injective_standard_partial`: standard notation, any table `Decodable` without
+    Existence and having parentheses and a negated-identity symbol, EVERY option set, all
+    constructible sentences WITHOUT an Existence predication.
+    Missing for the full statement (kept in the comment below): sentences containing Existence —
+    `E` (atomic 4) is a prefix of `E!` in all six standard tables; it needs the lookahead lemma
+    "an atomic token is followed by a subscript, a blank, a close paren or the end, none of whose
+    renderings starts with `!`" in `step`. -/
+theorem C12_render_injective_standard_partial (t : StringTable) (m : MaxIdx) (o : StdOpts)
+    (hd : Decodable t m false = true)
+    (hstd : (t.parenOpen.isSome && t.parenClose.isSome && t.negIdentity.isSome) = true)
+    (s1 s2 : Sent) (c1 : Constructible m s1) (c2 : Constructible m s2)
+    (e1 : noExistence s1 = true) (e2 : noExistence s2 = true)
+    (h : writeStandard t o s1 = writeStandard t o s2) : s1 = s2 := by
+  have ht := hasToks_symToks t m false
+  rw [hstd] at ht
+  have a1 := adm_standard ht o s1 c1 (Or.inr e1)
+  have a2 := adm_standard ht o s2 c2 (Or.inr e2)
+  exact C12_tokens_injective_standard m o s1 s2 c1 c2 (render_inj (DecodableP.of_bool hd) _ _ a1 a2 h)
+
+/-- … instantiated: every regenerated standard string table, every option set -/
+theorem C12_render_injective_standard_tables_partial (t : StringTable) (ht : t ∈ Gen.Symbols.stringTables)
+    (hn : t.notn = "standard") (o : StdOpts) (s1 s2 : Sent)
+    (c1 : Constructible Gen.Symbols.maxi s1) (c2 : Constructible Gen.Symbols.maxi s2)
+    (e1 : noExistence s1 = true) (e2 : noExistence s2 = true)
+    (h : writeStandard t o s1 = writeStandard t o s2) : s1 = s2 :=
+  C12_render_injective_standard_partial t Gen.Symbols.maxi o (standard_tables_decodable t ht hn).1
+    (standard_tables_decodable t ht hn).2 s1 s2 c1 c2 e1 e2 h
+
+example : writeStandard Gen.Symbols.str_html_standard_html {} (.op2 .conj (.atom 0 0) (.atom 1 0))
+    ≠ writeStandard Gen.Symbols.str_html_standard_html {} (.op2 .disj (.atom 0 0) (.atom 1 0)) := by decide +kernel
+example : noExistence (.op1 .neg (.pred Pred.identity [.const 0 0, .const 1 0])) = true := by decide
+
+/-! ### still open — full statement kept here
+
+    ▸ theorem C12_render_injective (n : Notation) (o) (tbl ∈ stringTables) :
+        Constructible m s1 → Constructible m s2 → write n o tbl s1 = write n o tbl s2 → s1 = s2
+
+  Proved: the Polish half in full (`C12_render_injective_polish_tables`), the standard half for
+  sentences without Existence (`C12_render_injective_standard_tables_partial`).  Open: standard
+  tables on sentences WITH Existence (`E` / `E!`, see above).
+-/
+
+/-- `C12_standard_denotes_partial` (kept from the first version): kernel evaluation for one fixed
+    sentence; superseded by `C12_standard_denotes` / `C12_standard_roundtrip`. -/
 theorem C12_standard_denotes_partial :
     let s : Sent := .quant .univ 0 0 (.op2 .cond (.op1 .neg (.pred ⟨0, 0, 1⟩ [.var 0 0]))
       (.op2 .disj (.pred ⟨-1, 0, 2⟩ [.var 0 0, .const 1 3]) (.atom 2 0)))
